@@ -425,3 +425,123 @@ pub fn gen_mix(r: &mut Rng) -> (String, Sim) {
     );
     (class, sim)
 }
+
+// ---------------------------------------------------------------------------
+// C10: master-side messages
+
+pub fn lattice_ts(r: &mut Rng) -> u128 {
+    let base: u128 = match r.below(8) {
+        0 => 0,
+        1 => r.below(3) as u128 * NS * FRAC,
+        2 => ((1u128 << 32) - 1 + r.below(3) as u128) * NS * FRAC,
+        3 => (1u128 << 63) * FRAC - 1 - r.below(1 << 20) as u128,
+        4 => 999_999_999 * FRAC + r.below(1 << 32) as u128,
+        _ => (1_700_000_000u128 + r.below(1 << 20) as u128) * NS * FRAC,
+    };
+    let delta: u128 = match r.below(6) {
+        0 => 0,
+        1 => (NS - 1) * FRAC + ((1u128 << 32) - 1),
+        2 => r.below(1 << 32) as u128,
+        3 => (r.below(1 << 16) as u128) << 16,
+        _ => (r.below(NS as u64) as u128) * FRAC + r.below(1 << 32) as u128,
+    };
+    (base + delta).min((1u128 << 63) * FRAC - 1)
+}
+
+pub fn master_inst(r: &mut Rng) -> InstCfg {
+    let mut i = rand_inst_cfg(r);
+    i.slave_only = false;
+    i
+}
+
+pub fn gen_c10(r: &mut Rng, long: bool) -> (String, Sim) {
+    let icfg = master_inst(r);
+    let np = 1 + r.below(2) as usize;
+    let cfgs: Vec<PortCfg> = (0..np)
+        .map(|_| {
+            let mut c = rand_port_cfg(r);
+            c.acceptable = None;
+            c
+        })
+        .collect();
+    let mut sim = Sim::new(icfg, cfgs);
+    let mut w = World::new(r, &sim, 1);
+    let own = sim.icfg.clock_identity;
+    // become master on every port
+    for p in 0..np {
+        sim.step(Ev::AnnounceReceiptTimer(p));
+    }
+    let n = if long { 66000 + r.below(500) } else { 25 + r.below(40) };
+    let mut kinds = std::collections::BTreeSet::new();
+    for _ in 0..n {
+        let p = r.below(np as u64) as usize;
+        let choice = if long { r.below(4) } else { r.below(14) };
+        let ev = match choice {
+            0 | 1 => Ev::SyncTimer(p),
+            2 | 3 => {
+                let cands: Vec<usize> = (0..np).filter(|i| !sim.pending[*i].is_empty()).collect();
+                if cands.is_empty() {
+                    Ev::SyncTimer(p)
+                } else {
+                    let p = *r.pick(&cands);
+                    let k = if r.chance(3, 4) { 0 } else { r.below(sim.pending[p].len() as u64) as usize };
+                    Ev::SendTimestamp(p, k, lattice_ts(r))
+                }
+            }
+            4 | 5 => {
+                let mut h = w.hdr(DELAY_REQ, 0x4200_0000_0000_0000 + r.below(3), r.range(0, 3) as u16, r.next() as u16);
+                h.correction = match r.below(8) {
+                    0 => i64::MAX,
+                    1 => i64::MAX - r.below(70000) as i64,
+                    2 => i64::MIN,
+                    3 => 0,
+                    _ => corr(r),
+                };
+                h.flags = [r.next() as u8 & 0x67, r.next() as u8 & 0x7f];
+                h.log_interval = r.next() as i8;
+                h.control = r.next() as u8;
+                h.version = if r.chance(1, 6) { 0x02 } else { 0x12 };
+                kinds.insert("dreq");
+                Ev::RecvEvent(p, frame(&h, &ts10(r.next() >> 16, r.next() as u32), &[]), lattice_ts(r))
+            }
+            6 | 7 => {
+                let mut h = w.hdr(PDELAY_REQ, 0x4300_0000_0000_0000 + r.below(2), 2, r.next() as u16);
+                h.correction = corr(r);
+                let mut body = ts10(0, 0);
+                body.extend_from_slice(&[0; 10]);
+                kinds.insert("pdreq");
+                Ev::RecvEvent(p, frame(&h, &body, &[]), lattice_ts(r))
+            }
+            8 => Ev::AnnounceTimer(p),
+            9 => Ev::Bmca,
+            10 => {
+                // a better master appears: the port may leave the master state
+                kinds.insert("ann");
+                Ev::RecvGeneral(p, w.announce_frame(0, &[]))
+            }
+            11 => Ev::AnnounceReceiptTimer(p),
+            12 => Ev::DelayReqTimer(p),
+            _ => {
+                // request from our own identity / wrong domain
+                let mut h = w.hdr(DELAY_REQ, own, (p + 1) as u16, 3);
+                if r.chance(1, 2) {
+                    h.domain = h.domain.wrapping_add(1);
+                }
+                Ev::RecvEvent(p, frame(&h, &ts10(0, 0), &[]), lattice_ts(r))
+            }
+        };
+        if !sim.step(ev) {
+            break;
+        }
+        w.observe(&sim);
+    }
+    let class = format!(
+        "c10:{}:np{}:{}:{}:{}",
+        if long { "long" } else { "short" },
+        np,
+        if sim.panicked { "panic" } else { "ok" },
+        kinds.iter().cloned().collect::<Vec<_>>().join("+"),
+        w.visited.iter().cloned().collect::<Vec<_>>().join("")
+    );
+    (class, sim)
+}
